@@ -61,6 +61,11 @@ class ContentAnalysis(BufferAnalysis):
                         assigns.extend(zip(t.elts, n.value.elts))
                     else:
                         assigns.append((t, n.value))
+        for n in ast.walk(f.node):
+            if isinstance(n, ast.For):
+                shape = self.for_shape(n, fr.bufenv)
+                if shape is not None and shape[0] == 'rslice':
+                    out.add(n.target.id)
         changed = True
         while changed:
             changed = False
@@ -161,6 +166,8 @@ class ContentAnalysis(BufferAnalysis):
         if isinstance(tgt, ast.Subscript) and self.is_buf(tgt.value, fr):
             st = super().assign1(st, tgt, val, fr)
             return self.store_content(st, fr.bufenv[tgt.value.id], self.iexpr(tgt.slice, fr), val, fr, tgt, 'store')
+        if dotted(tgt) is not None:
+            st = self.kill_facts(st, fr, path=dotted(tgt))
         if self.is_cursor(tgt, fr):
             def f(fl, z):
                 hv = self.hval(val, fr, fl, z) if val is not None else None
@@ -289,6 +296,8 @@ class ContentAnalysis(BufferAnalysis):
                 z.le(K, x, c - 1)
                 return (fl, z)
             return st.map(f)
+        if dotted(tgt) is not None:
+            st = self.kill_facts(st, fr, path=dotted(tgt))
         if self.is_cursor(tgt, fr):
             def f(fl, z):
                 self.set_h('o:' + CUR, 'D:' + CUR, hv, fl, z)
